@@ -635,6 +635,12 @@ func c17Recursion(c *Ctx, reach map[*ssa.Function]bool) {
 	cycles := 0
 	census := []map[string]any{}
 	defer func() { r.Analysed["recursive_cycle_census"] = census }()
+	// Z11: a stack overflow is a fatal error that no recover boundary catches.  Whether a recursion terminates cannot be
+	// decided in general (census below), but one shape certainly does not descend on a finite structure: a recursive call
+	// whose arguments are all either the caller's own parameters handed on unchanged or values of a basic type (a text
+	// looked up in a table, say).  Such a recursion ends only if the data happens to end it (`ex: ex.v1/` never does).
+	r.Rule("C17.Z11", "every recursive call hands on a part of a structure, a shorter slice or a changed counter - never only unchanged parameters and looked-up texts", 5)
+	z11 := 0
 	for _, comp := range sccs {
 		self := false
 		if len(comp) == 1 {
@@ -669,6 +675,7 @@ func c17Recursion(c *Ctx, reach map[*ssa.Function]bool) {
 		}
 		var bad []string
 		edges := 0
+		neutral := map[*ssa.Function][]*ssa.Function{} // recursive calls that hand on nothing that can be smaller
 		for _, f := range comp {
 			for _, b := range f.Blocks {
 				for _, ins := range b.Instrs {
@@ -710,8 +717,59 @@ func c17Recursion(c *Ctx, reach map[*ssa.Function]bool) {
 					if !desc {
 						bad = append(bad, fmt.Sprintf("%s -> %s at %s", FuncKey(f), calleeName(call), p.Pos(ins.Pos())))
 					}
+					canShrink := false
+					for _, a := range args {
+						if mayShrink(a, 0) {
+							canShrink = true
+						}
+					}
+					if !canShrink {
+						for _, tg := range targets {
+							if in[tg] {
+								neutral[f] = append(neutral[f], tg)
+							}
+						}
+					}
 				}
 			}
+		}
+		// Z11: a cycle made of such calls only
+		z11++
+		var loop []string
+		state := map[*ssa.Function]int{}
+		var path []*ssa.Function
+		var dfs func(f *ssa.Function) bool
+		dfs = func(f *ssa.Function) bool {
+			state[f] = 1
+			path = append(path, f)
+			for _, g := range neutral[f] {
+				if state[g] == 1 {
+					for i := len(path) - 1; i >= 0; i-- {
+						loop = append([]string{FuncKey(path[i])}, loop...)
+						if path[i] == g {
+							break
+						}
+					}
+					return true
+				}
+				if state[g] == 0 && dfs(g) {
+					return true
+				}
+			}
+			path = path[:len(path)-1]
+			state[f] = 2
+			return false
+		}
+		found := false
+		for _, f := range comp {
+			if state[f] == 0 && !found {
+				found = dfs(f)
+			}
+		}
+		if found {
+			r.Bad("C17.Z11", "cycle:"+strings.Join(loop, ">"), p.Pos(comp[0].Pos()), "the recursion "+strings.Join(loop, " -> ")+" -> "+loop[0]+" passes only unchanged parameters and basic values that are not computed by slicing or arithmetic from one call to the next: nothing gets smaller, so it ends only if the data ends it; a stack overflow is fatal and bypasses every recover boundary")
+		} else {
+			r.OK("C17.Z11", "cycle:"+name, p.Pos(comp[0].Pos()), fmt.Sprintf("%d recursive call sites: every way around the cycle hands on a structured value, a slice or a computed number at least once", edges))
 		}
 		sort.Strings(bad)
 		// census only: structural descent is recognised for some cycles and not for others (wrappers such as
@@ -719,6 +777,71 @@ func c17Recursion(c *Ctx, reach map[*ssa.Function]bool) {
 		census = append(census, map[string]any{"cycle": name, "functions": len(comp), "recursive_call_sites": edges, "sites_not_recognised_as_structural_descent": bad})
 	}
 	r.Analysed["recursive_cycles"] = cycles
+	if z11 == 0 {
+		r.Unknown("C17.Z11", "recursive-calls", "", "no recursive call site was found in reach of the entry points")
+	}
+}
+
+// mayShrink: the argument of a recursive call can be smaller than what the caller was given: it is a value of a
+// structured type (a part, a wrapper or a transformation of a structure) that is not simply one of the caller's parameters,
+// or a slice / substring of something, or a number that was computed.
+func mayShrink(v ssa.Value, depth int) bool {
+	if depth > 8 {
+		return false
+	}
+	switch x := v.(type) {
+	case *ssa.Parameter, *ssa.FreeVar, *ssa.Const, *ssa.Global, *ssa.Function:
+		return false
+	case *ssa.MakeInterface:
+		return mayShrink(x.X, depth+1)
+	case *ssa.ChangeType:
+		return mayShrink(x.X, depth+1)
+	case *ssa.ChangeInterface:
+		return mayShrink(x.X, depth+1)
+	case *ssa.Convert:
+		return mayShrink(x.X, depth+1)
+	case *ssa.UnOp:
+		if x.Op == token.MUL {
+			// a load: of a parameter's spill slot it is the parameter itself
+			if a, ok := x.X.(*ssa.Alloc); ok {
+				for _, ref := range nonDebugRefs(a) {
+					if st, isSt := ref.(*ssa.Store); isSt && st.Addr == a {
+						if mayShrink(st.Val, depth+1) {
+							return true
+						}
+					}
+				}
+				return false
+			}
+		}
+	case *ssa.Slice:
+		return true
+	case *ssa.BinOp:
+		if b, ok := x.Type().Underlying().(*types.Basic); ok && b.Info()&types.IsNumeric != 0 {
+			return true
+		}
+	case *ssa.Phi:
+		for _, e := range x.Edges {
+			if e != v && mayShrink(e, depth+1) {
+				return true
+			}
+		}
+		return false
+	}
+	if _, basic := v.Type().Underlying().(*types.Basic); basic {
+		return false
+	}
+	return true
+}
+
+func shortCallee(call ssa.CallInstruction) string {
+	if f := call.Common().StaticCallee(); f != nil {
+		return FuncKey(f)
+	}
+	if call.Common().IsInvoke() {
+		return "(" + types.TypeString(call.Common().Value.Type(), func(p *types.Package) string { return p.Name() }) + ")." + call.Common().Method.Name()
+	}
+	return "?"
 }
 
 func isGeneratedParserFunc(p *Prog, f *ssa.Function) bool {
